@@ -180,6 +180,8 @@ def run(ck):
     ck.assumptions += ["the EC backend answers consistently with one block tree (model backend behind ec.Backend)",
                        "certificates in the store form a valid chain (checked with certs.ValidateFinalityCertificates before use)",
                        "the bootstrap tipset is final: with no certificate two nodes are only compared on the initial power table"]
+    import runnerstage          # additional conformance coverage: which instance the node works on, and when (host.go)
+    runnerstage.runner_stage(ck)
 
 
 MANIFEST = dict(
